@@ -5,5 +5,5 @@ CONSTANTS
   MaxOut = 7
   OffR = 6
   Z3Idx = {1, 2, 3, 5, 6, 7}
-INVARIANTS InvWhole InvMiddle InvSum InvCom InvUniform InvShift InvRelabel InvSeparable InvSum3
+INVARIANTS InvWhole InvMiddle InvSum InvCom InvComTight InvUniform InvShift InvRelabel InvSeparable InvSum3
 CHECK_DEADLOCK FALSE
